@@ -48,13 +48,24 @@ def _names(model, f):
             for c in ast.walk(n.value):
                 if isinstance(c, ast.Call) and model.resolve(f.module, c.func) == "torchtt._tt_base.TT" and c.args and isinstance(c.args[0], ast.Name):
                     result = c.args[0].id
-    return shape, cores, result
+    # the result list may be built under another name and bound to the returned one afterwards (`cores_new = built`)
+    results = {result} if result else set()
+    grew = True
+    while grew:
+        grew = False
+        for n in ast.walk(f.node):
+            if isinstance(n, ast.Assign) and len(n.targets) == 1 and isinstance(n.targets[0], ast.Name) and n.targets[0].id in results \
+                    and isinstance(n.value, ast.Name) and n.value.id not in results:
+                results.add(n.value.id)
+                grew = True
+    return shape, cores, results
 
 
-def _cmp_len(test, op_types, listname):
-    """Name compared with len(listname) (possibly len(...)-1) by one of op_types; returns the Name or None"""
+def _cmp_len(test, op_types, listname, nz=None):
+    """Name compared with len(listname) (possibly len(...)-1) by one of op_types; returns the Name or None.  The right-hand side is read
+    through single-assignment locals and lists that have one element per element of `listname` (ttsa.allowance.Normaliser.canon)"""
     if isinstance(test, ast.Compare) and len(test.ops) == 1 and isinstance(test.ops[0], op_types) and isinstance(test.left, ast.Name):
-        r = norm(test.comparators[0]).replace(" ", "")
+        r = (nz.canon(test.comparators[0]) if nz is not None else norm(test.comparators[0])).replace(" ", "")
         if r in (f"len({listname})", f"len({listname})-1"):
             return test.left.id
     return None
@@ -64,9 +75,10 @@ def rule_drain(model: Model):
     f, br = _kind_branches(model)
     if br is None:
         return [Ob("DRAIN", "_extras.reshape:DRAIN:dispatch", ERROR, model.where(f), "if tens.is_ttm", "kind dispatch not found")]
-    shape, cores, result = _names(model, f)
+    shape, cores, results = _names(model, f)
+    nz = al.Normaliser(model, f, ("eps",))
     obs = []
-    if cores is None or result is None:
+    if cores is None or not results:
         return [Ob("DRAIN", "_extras.reshape:DRAIN:roles", ERROR, model.where(f), "roles", "cannot identify the orthogonalised core list / result list")]
     for kind, stmts in br.items():
         loops = [s for s in stmts if isinstance(s, ast.While)]
@@ -79,8 +91,8 @@ def rule_drain(model: Model):
         core_breaks, ccur = [], None
         for n in ast.walk(main):
             if isinstance(n, ast.If) and any(isinstance(x, ast.Break) for x in n.body):
-                t = _cmp_len(n.test, (ast.Eq, ast.GtE), shape)
-                c = _cmp_len(n.test, (ast.Eq, ast.GtE), cores)
+                t = _cmp_len(n.test, (ast.Eq, ast.GtE), shape, nz)
+                c = _cmp_len(n.test, (ast.Eq, ast.GtE), cores, nz)
                 if t:
                     tgt_breaks.append(n)
                     tcur = t
@@ -99,10 +111,11 @@ def rule_drain(model: Model):
                 if isinstance(x, ast.For) and norm(x.iter).replace(" ", "") == f"{cores}[{ccur}:]" and isinstance(x.target, ast.Name):
                     tgt = x.target.id
                     for y in ast.walk(x):
-                        if isinstance(y, ast.Assign) and norm(y.targets[0]).replace(" ", "") == f"{result}[-1]":
-                            used = {z.id for z in ast.walk(y.value) if isinstance(z, ast.Name)}
-                            if tgt in used and f"{result}[-1]" in norm(y.value).replace(" ", ""):
-                                absorbs = True
+                        for result in results:
+                            if isinstance(y, ast.Assign) and norm(y.targets[0]).replace(" ", "") == f"{result}[-1]":
+                                used = {z.id for z in ast.walk(y.value) if isinstance(z, ast.Name)}
+                                if tgt in used and f"{result}[-1]" in norm(y.value).replace(" ", ""):
+                                    absorbs = True
             ok_a = ok_a and absorbs
         obs.append(Ob("DRAIN", k0 + "targets-exhausted", OK if ok_a else VIOLATED, model.where(f, tgt_breaks[0]),
                       f"if {tcur} == len({shape}): absorb {cores}[{ccur}:]; break",
@@ -110,8 +123,8 @@ def rule_drain(model: Model):
                       f"when the target shape is exhausted the remaining cores {cores}[{ccur}:] are dropped; after orthogonalisation each holds a "
                       "unit-modulus scalar, so the result loses a sign / complex phase (e.g. [4,3,1] -> [12])"))
         after = stmts[stmts.index(main) + 1:]
-        drain = [s for s in after if isinstance(s, ast.While) and _cmp_len(s.test, (ast.Lt,), shape) == tcur
-                 and any(isinstance(x, ast.Call) and isinstance(x.func, ast.Attribute) and x.func.attr == "append" and norm(x.func.value) == result
+        drain = [s for s in after if isinstance(s, ast.While) and _cmp_len(s.test, (ast.Lt,), shape, nz) == tcur
+                 and any(isinstance(x, ast.Call) and isinstance(x.func, ast.Attribute) and x.func.attr == "append" and norm(x.func.value) in results
                          for x in ast.walk(s))]
         bump = any(isinstance(s, ast.AugAssign) and norm(s.target) == tcur for s in after)
         ok_b = bool(drain) and bump
@@ -145,6 +158,7 @@ def rule_gauge(model: Model):
 
 def check(model: Model, tier: str):
     obs = []
+    model.use_inlined("_extras.reshape", "_extras.permute")
     obs += rule_drain(model)
     obs += c01.allowance_sites(model, "_extras.permute", {"re:" + c01.ORDER: Fraction(-1)})
     # any direct rank selection inside reshape must use a relative allowance shared among the dfin-1 bonds of the result
